@@ -134,9 +134,14 @@ template <class C> Verdict check_fault(const Plan& plan, Stats& st, const std::s
     {
         Violation v;
         // a violation in the fault-free reference run is not this property's business (other checks judge it)
-        if (!ref.viol.empty()) { for (auto& x : ref.viol) { st.anomalies[std::string("fault-free:") + vkind_name(x.kind)]++; if (!st.anomaly_example.count(std::string("fault-free:") + vkind_name(x.kind))) st.anomaly_example[std::string("fault-free:") + vkind_name(x.kind)] = x.detail; } return none; }
+        if (!ref.viol.empty()) { for (auto& x : ref.viol) { st.anomalies[std::string("fault-free:") + vkind_name(x.kind)]++; if (!st.anomaly_example.count(std::string("fault-free:") + vkind_name(x.kind))) st.anomaly_example[std::string("fault-free:") + vkind_name(x.kind)] = x.detail; } }
+        // a reference run that ended in a fail-stop cannot serve; one that merely recorded something (a store into static data, a load
+        // from released memory) still can: what it recorded is not the injected failure's doing and is left out of the faulted runs
+        if (ref.aborted) return none;
         (void)v;
     }
+    std::set<int> ref_kinds; for (auto& x : ref.viol) ref_kinds.insert((int)x.kind);
+    auto minus_ref = [&](const std::vector<Violation>& in) { if (ref_kinds.empty()) return in; std::vector<Violation> o; for (auto& x : in) if (!ref_kinds.count((int)x.kind)) o.push_back(x); return o; };
     if (ref.outs[(size_t)t].skipped) return none;
     int N = ref.outs[(size_t)t].reqs;
     const Op& top = plan.ops[(size_t)t];
@@ -165,7 +170,7 @@ template <class C> Verdict check_fault(const Plan& plan, Stats& st, const std::s
             if (top.kind == OP_NORMALIZE || top.kind == OP_MAKEOWNER) st.probe(ref.outs[(size_t)t].digest.find("owner=1") != std::string::npos ? "fault_inplace_result_owned" : "fault_inplace");
         } else st.fault("alloc_fail.configured_not_fired");
         Violation v;
-        if (pick_violation(prop, out.viol, st, &v)) return make_verdict(q, v, out.hash);
+        if (pick_violation(prop, minus_ref(out.viol), st, &v)) return make_verdict(q, v, out.hash);
         if (out.aborted) continue;
         // bounded recovery / rest of the history
         std::string why; std::set<int> tu, tq;
